@@ -12,7 +12,7 @@ from ..infer import NODE, NODECLS, SLOT
 from ..model import AnalysisError, Func, iter_own, norm
 from ..pat import find, has, match, one
 from .pair import P_effect
-from .util import raised_class, stmt_index
+from .util import raised_class, stands_for_params, stmt_index
 
 
 def _raises_unique(node: ast.AST) -> bool:
@@ -181,7 +181,7 @@ def move_order(ctx: Ctx) -> List[Ob]:
             continue
         for x in ast.walk(n.ast):
             if isinstance(x, ast.Call) and ((isinstance(x.func, ast.Name) and x.func.id == "_index_of") or (isinstance(x.func, ast.Attribute) and x.func.attr == "index")) \
-                    and any(isinstance(a, ast.Name) and a.id == "before" for a in x.args):
+                    and any(isinstance(a, ast.Name) and "before" in stands_for_params(ctx, f, a.id) for a in x.args):
                 looks.append(n)
     for n in looks:
         ok = cfg.dominated_by(n, unlink)
